@@ -17,7 +17,8 @@ func init() {
 		Title: "Values round-trip through the HTTP API without loss",
 		Explanation: "C30.a TABLE (exhaustiveness): the oneof wrapper types of command/proto.Parameter are enumerated from the generated package (types implementing isParameter_Value); every type switch over a parameter value — db.parametersToValues (binding), db.populateEmptyTypes, encoding.NewValuesFromQueryValues (JSON output) — has a case for each wrapper and for nil; db.normalizeRowParameters produces each wrapper; http.makeParameter produces each wrapper that JSON can express and has a case for every dynamic type the JSON decoder yields under UseNumber (json.Number, string, bool, nil, []any). " +
 			"C30.b DOM: in http.ParseRequest dec.UseNumber() precedes every Decode/Token, and makeParameter tries Int64() before Float64() (64-bit integers stay exact). " +
-			"C30.c INIT: every byte slice stored as a blob parameter by makeParameter is allocated (make / decoder output), never a possibly-nil slice variable — go-sqlite3 binds a nil []byte as NULL, so an empty byte array must stay a zero-length blob.",
+			"C30.c INIT: every byte slice stored as a blob parameter by makeParameter is allocated (make / decoder output), never a possibly-nil slice variable — go-sqlite3 binds a nil []byte as NULL, so an empty byte array must stay a zero-length blob; the same on the way out (normalizeRowParameters). " +
+			"C30.d OWN: no function of command/encoding or http returns a slice that aliases an object it puts back into a sync.Pool (the response text would be rewritten by the next encoding before it reaches the client).",
 		NotCovered: []string{"value equality end to end (SQLite type affinity, float formatting)", "associative vs array result rendering of values"},
 		Run:        runC30,
 	})
@@ -161,6 +162,20 @@ func runC30(c *core.Ctx) {
 		c.Min("blob parameter constructions in makeParameter", 3)
 		c.Result(bad == "", "C30.c", "INIT", "makeParameter:blob-never-nil", c.P.Pos(fn.Pos()),
 			"every blob parameter is built from an allocated slice", "a blob parameter is built from a slice that can be nil ("+bad+"): an empty byte array would be bound as NULL instead of a zero-length blob", nil)
+	}
+	// C30.d OWN: the bytes of a response are the caller's — no encoder function hands
+	// out a slice of a buffer it puts back into a pool
+	{
+		var fns []*ssa.Function
+		for _, pkg := range []string{"command/encoding", "http"} {
+			if sp := c.P.SPkg(pkg); sp != nil {
+				fns = append(fns, pkgFuncs(sp)...)
+			}
+		}
+		n := checkPoolOwnership(c, "C30.d", fns, "the JSON text of one response is overwritten by the encoding of another request before it is written to the client: values arrive changed, or the response is not valid JSON")
+		if n == 0 {
+			c.OK("C30.d", "OWN", "encoders:pooled-memory-escapes", "", "no encoder function uses a sync.Pool with Put today; the rule's positive control is the fixture PoolEscape (self-test)")
+		}
 	}
 	// C30.c on the way out: a blob read back from SQLite stays the scanned slice (or a
 	// copy that keeps a zero-length blob non-nil) — the JSON encoder writes a nil
